@@ -25,6 +25,9 @@ type Refil struct {
 	// waiting for anything in between (what a join does on a burst of source
 	// events): the per-call delta is then not observable, the final view is
 	NoWait []bool `json:"no_wait,omitempty"`
+	// Stateful: the node's filter is one user-defined object without Equals, whose
+	// state is changed in place and which is re-submitted by pointer
+	Stateful bool `json:"stateful,omitempty"`
 	Sim     SimCfg             `json:"sim"`
 }
 
@@ -94,6 +97,7 @@ func genC07(g GenCtx) interface{} {
 		}
 	}
 	sc.Kind = pick(rng, "subf", "subf", "clonef")
+	sc.Stateful = rng.Intn(6) == 0
 	sc.Touch = rng.Intn(4) == 0
 	sc.Sim = SimCfg{Strategy: randStrategy(rng, libGoroutines), PermuteMaps: true, MaxSteps: 100000, EstSteps: 1500}
 	sc.Sim.Strategy.StallPermille = 0
@@ -120,6 +124,7 @@ func runC07(sci interface{}) {
 	}
 	var fnode, reader *world.NodeRT
 	var err error
+	h.NextStateful = sc.Stateful
 	if sc.Kind == "clonef" {
 		fnode, err = h.MakeNode(nil, "clonef", sc.Filters[0], "none")
 		if err == nil {
